@@ -1136,13 +1136,19 @@ func ruleNilIsEndOnly(w *core.World, r *core.Report) {
 		bad := ""
 		var pos token.Pos = f.Pos()
 		n := 0
-		for _, ret := range core.ReturnsX(f) {
-			for _, v := range core.RetVals(ret, 0) {
-				n++
-				if _, isSlice := core.Unwrap(v).(*ssa.Slice); !isSlice {
-					bad, pos = "Slice returns something other than a slice of the buffer ("+v.String()+"): a nil answer for an empty element reads as 'end of the ziplist' in every consumer, the rest of the structure is silently dropped", ret.Pos()
-				}
+		okEnum := core.EnumPathsN(f.Blocks[0], 0, 100000, 1, func(p *core.Path) {
+			ret, isRet := p.End.(*ssa.Return)
+			if !isRet || ret.Parent() != f || len(ret.Results) == 0 {
+				return
 			}
+			n++
+			v := p.Resolve(ret.Results[0])
+			if _, isSlice := core.Unwrap(v).(*ssa.Slice); !isSlice {
+				bad, pos = "Slice returns something other than a slice of the buffer ("+v.String()+"): a nil answer for an empty element reads as 'end of the ziplist' in every consumer, the rest of the structure is silently dropped", ret.Pos()
+			}
+		})
+		if !okEnum {
+			bad = "too many paths"
 		}
 		r.Check(bad == "" && n > 0, "SliceBuffer.Slice/never-nil", pos, "%s", bad)
 	}
